@@ -167,6 +167,9 @@ func checkC14(P *Prog, r *Result) {
 
 	// ---- nested-from-parent ----
 	P.checkTagReachesNested(r, "C14/nested-from-parent")
+	// which rendering of a request is read (query vs body, by method and media type) is part of "the same
+	// record through every front end": C15's source-selection table
+	shareRule(P, r, checkC15, "C15/dispatch-table", nil, "C14/source-selection", 4)
 }
 
 func checkC15(P *Prog, r *Result) {
@@ -446,15 +449,39 @@ func (P *Prog) checkProviderNonNil(r *Result, rule string) {
 	}
 	// invoke sites on DataProvider values in node functions
 	n := 0
-	for _, fn := range P.nodeFuncs() {
+	var siteFns []*ssa.Function
+	siteOwner := map[*ssa.Function]*ssa.Function{}
+	for _, nf := range P.nodeFuncs() {
+		// the node function and its closures / helpers (a field loop whose body is a closure handed to an iteration helper)
+		for _, u := range P.nodeUnits(nf) {
+			if _, dup := siteOwner[u.fn]; !dup {
+				siteOwner[u.fn] = nf
+				siteFns = append(siteFns, u.fn)
+			}
+		}
+	}
+	for _, fn := range siteFns {
+		nf := siteOwner[fn]
 		eachInstr(fn, func(b *ssa.BasicBlock, _ int, in ssa.Instruction) {
 			ci := callOf(in)
 			if ci == nil || ci.invoke == nil || !P.isDataProviderIface(ci.instr.Common().Value.Type()) {
 				return
 			}
 			n++
-			c := fmt.Sprintf("%s#invoke:%s", fname(fn), ci.invoke.Name())
+			c := fmt.Sprintf("%s#invoke:%s", fname(nf), ci.invoke.Name())
 			recv := ci.instr.Common().Value
+			// a variable of the enclosing function captured by this closure: decided where the closure is
+			// created, flow-sensitively (the `if dp == nil { dp = &Empty{} }` repair precedes the closure)
+			if u, ok := recv.(*ssa.UnOp); ok && u.Op == token.MUL {
+				if fv, ok := u.X.(*ssa.FreeVar); ok {
+					if al, ok := freeVarBinding(fv).(*ssa.Alloc); ok {
+						if why := capturedNonNil(al, fn); why == "" {
+							r.ok(rule, c, P.ipos(in), "captured provider variable is definitely non-nil where the closure is created and not written afterwards")
+							return
+						}
+					}
+				}
+			}
 			// guarded by a nil test?
 			for _, gd := range guardsOf(b) {
 				if x, eq, isN := isNilCompare(gd.If.Cond); isN && cv(x) == cv(recv) && gd.True != eq {
@@ -721,4 +748,109 @@ func (P *Prog) nilOnlyWhenEmptyParam(fn *ssa.Function, nilReturners map[*ssa.Fun
 		return -1
 	}
 	return idx
+}
+
+// capturedNonNil: the local variable al of the enclosing function, captured by closure cl, holds a non-nil
+// interface whenever cl can run: at the MakeClosure of cl the variable is definitely non-nil (forward
+// must-analysis over the parent's blocks: a store of a boxed concrete value makes it non-nil, a branch on
+// `load(al) == nil` makes it non-nil on the other edge) and no store to it can follow. Returns "" or why not.
+func capturedNonNil(al *ssa.Alloc, cl *ssa.Function) string {
+	par := al.Parent()
+	if par == nil || cl.Parent() != par {
+		return "captured through more than one closure level"
+	}
+	var mcs []*ssa.MakeClosure
+	eachInstr(par, func(_ *ssa.BasicBlock, _ int, in ssa.Instruction) {
+		if mc, ok := in.(*ssa.MakeClosure); ok && mc.Fn == cl {
+			mcs = append(mcs, mc)
+		}
+	})
+	if len(mcs) != 1 {
+		return "closure created at several places"
+	}
+	mc := mcs[0]
+	// stores to the variable anywhere but in the parent (another closure writing it) defeat the argument
+	stores := storesTo(al)
+	for _, st := range stores {
+		if st.Parent() != par {
+			return "the variable is written inside a closure"
+		}
+	}
+	const unk, nn, unvisited = 0, 1, -1
+	in := map[*ssa.BasicBlock]int{}
+	for _, b := range par.Blocks {
+		in[b] = unvisited
+	}
+	in[par.Blocks[0]] = unk
+	stateAtMC := unvisited
+	storeAfterMC := false
+	for changed, iter := true, 0; changed && iter < 60; iter++ {
+		changed = false
+		for _, b := range par.Blocks {
+			cur := in[b]
+			if cur == unvisited {
+				continue
+			}
+			var lastLoad ssa.Value // a load of al with no store to al after it in this block
+			for _, ins := range b.Instrs {
+				switch x := ins.(type) {
+				case *ssa.Store:
+					if x.Addr == ssa.Value(al) {
+						lastLoad = nil
+						if definitelyNonNil(cv(x.Val)) {
+							cur = nn
+						} else {
+							cur = unk
+						}
+					}
+				case *ssa.UnOp:
+					if x.Op == token.MUL && x.X == ssa.Value(al) {
+						lastLoad = x
+					}
+				case *ssa.MakeClosure:
+					if x == mc {
+						stateAtMC = cur
+					}
+				}
+			}
+			for k, sct := range b.Succs {
+				out := cur
+				if iff := condOf(b); iff != nil && lastLoad != nil {
+					if x, eq, isN := isNilCompare(iff.Cond); isN && x == lastLoad {
+						// eq: cond is `v == nil`; edge 0 is the true edge
+						if (eq && k == 1) || (!eq && k == 0) {
+							out = nn
+						}
+					}
+				}
+				switch {
+				case in[sct] == unvisited:
+					in[sct] = out
+					changed = true
+				case in[sct] == nn && out == unk:
+					in[sct] = unk
+					changed = true
+				}
+			}
+		}
+	}
+	// no store after the closure exists
+	for _, st := range stores {
+		if st.Block() == mc.Block() {
+			if instrIndex(st) > instrIndex(mc) {
+				storeAfterMC = true
+			}
+		} else if reach(mc.Block(), nil)[st.Block()] && st.Block() != mc.Block() {
+			if !st.Block().Dominates(mc.Block()) || reachFromSuccs(mc.Block(), nil)[st.Block()] {
+				storeAfterMC = true
+			}
+		}
+	}
+	switch {
+	case stateAtMC != nn:
+		return "the variable may be a nil interface where the closure is created"
+	case storeAfterMC:
+		return "the variable can be written after the closure was created"
+	}
+	return ""
 }
